@@ -39,8 +39,8 @@ claim("C14",
       "against the AO count only without one (D2, path conditions); the returned expression equals +sum Z/d (thresholded) - sum "
       "P*I as a symbolic identity given point_charge_integral(q) = -q*I (SIGN); basis, points, transform are forwarded and the "
       "probe charges are -1 (FWD); boolean-mask reads are tracked as selections, so filtering the nuclei may only drop zero charges. Holds for all charges, thresholds and transformations because nothing is sampled. The values "
-      "of the integrals are C03's.",
-      "Trusted: elementwise abstraction (broadcast adapters dropped, np.sum linear), sympy simplify, C03 for the integral values.",
+      "of the point-charge integrals are decided by running every rule of C03 inside this check (prefix C03/; the nuclear-attraction wrapper, not used here, excluded).",
+      "Trusted: elementwise abstraction (broadcast adapters dropped, np.sum linear), sympy simplify; what C03 trusts.",
       "DESIGN.md 2.4, 2.6, 3 (C14)")
 
 claim("C20",
@@ -110,7 +110,7 @@ claim("C06",
       "(finite-orderings argument) and otherwise return clip(min=0) of the checked array (scaled by 1/2 for "
       "the KED); transform/deriv_type are forwarded at all internal call sites. Values that went through a non-linear operation (a clipping routine, clip/abs/maximum, an orbital selection derived from the density matrix) are marked and equal no defining sum, except the clipped t+ inside the general kinetic-energy density; result buffers must not take their dtype from the points (PITFALL). 'To rounding error' and non-negativity for PSD "
       "matrices are numerical and not decided; orders bounded at 4 per axis for the Leibniz rule.",
-      "Trusted: evaluate_basis/evaluate_deriv_basis return orbital values/derivatives with axes (orbitals, points) (C05); "
+      "Composed: the rules of C05 are run inside this check (prefix C05/): densities are products of the evaluated orbitals and derivatives. Trusted: evaluate_basis/evaluate_deriv_basis return arrays with axes (orbitals, points); "
       "G(p,q)=G(q,p) for symmetric P; sympy.",
       "DESIGN.md 2.5, 2.6, 3 (C06)")
 
@@ -123,8 +123,8 @@ claim("C15",
       "relations do not rest on a transcription of the expanded formulas; symmetric=True is (H+H^T)/2; every guarded update (14) has "
       "a coefficient with a root at its special-cased parameter value, so skipping it is exact; output layouts (points,3[,3]); "
       "one_density_matrix, basis, points, transform forwarded at all 14 call sites. Holds for all real alpha, beta. Nothing "
-      "numerical is claimed; that G, R, LAP are what the density routines return is C06.",
-      "Trusted: Leibniz laws of the term algebra; C06 for the primitives; sympy expand/simplify on polynomials in alpha, beta.",
+      "numerical is claimed; that G, R, LAP are what the density routines return is decided by running C06's rules for the routines called here (and through C06, C05's) inside this check (prefixes C06/, C06/C05/).",
+      "Trusted: Leibniz laws of the term algebra; what C06/C05 trust; sympy expand/simplify on polynomials in alpha, beta.",
       "DESIGN.md 2.5, 3 (C15)")
 
 _KERNEL_NOTE = ("Trusted: the Obara-Saika/HGP recurrences as written in DESIGN.md 2.2 (target-relative form in gbsa/stencil_spec.py); numpy "
@@ -229,14 +229,15 @@ claim("C13",
       _KERNEL_NOTE, "DESIGN.md 3 (C13)")
 
 claim("C16",
-      "axis-provenance typing of all kernels and assemblies + closed-form sibling comparison (STRUCTURAL PREMISE ONLY)",
-      "Only the structural premise of the property is decided: both halves of the library obtain primitive norms, component order, contraction "
-      "norms and the Cartesian->spherical matrix from the same shell API and apply them identically - all nine integral-kernel runs are "
+      "axis-provenance typing of the kernels and assemblies + closed-form sibling comparison + composition of the exactness checks of both halves",
+      "Decided: (1) the structural premise - both halves of the library obtain primitive norms, component order, contraction "
+      "norms and the Cartesian->spherical matrix from the same shell API and apply them identically - the overlap, moment and kinetic-energy kernel runs (the operators the property names) are "
       "well-typed with type K (a wrong shell's attribute in a slot is a provenance mismatch), both evaluation back-ends receive the "
       "shell's own attributes in matching slots, the one-index and two-index assemblies satisfy the same per-index contract A, and "
-      "norm_prim_cart is symbolically the closed form that the one-/two-electron kernels apply in two pieces. The quadrature statement "
-      "itself (numerical agreement of integrated evaluations with the analytic integrals) is NOT decided by this family; changes that "
-      "break it through a wrong recurrence coefficient are the business of C01/C02/C07.",
+      "norm_prim_cart is symbolically the closed form that the one-/two-electron kernels apply in two pieces. (2) exactness of each half, by running inside this check the rules of C01, C02, C07 (integral side), "
+      "C05 for orders <= 1 and C06 for the density and the positive-definite kinetic-energy density (evaluation side): integrating exact evaluations reproduces exact integrals, and a defect on one "
+      "side only breaks the agreement. The quadrature statement "
+      "itself (numerical agreement of integrated evaluations with the analytic integrals) is NOT decided by this family.",
       _KERNEL_NOTE, "DESIGN.md 3 (C16), 4")
 
 na("C10", "quantifies over the numerical values of the transformation matrices (harmonicity, orthonormality, phases for every l<=10); "
